@@ -41,7 +41,7 @@ structure Heap where
   modRefs : List (List Handle) -- `module_reference_pointer_table` (+ its interning map)
   unmarked : List Nat          -- `unmarked_module_references`
   sweepIndex : Nat
-  deriving Repr, Inhabited
+  deriving Repr, Inhabited, DecidableEq
 
 def inlineMax : Nat := 15
 
